@@ -284,9 +284,10 @@ func (c *child) runSegment(s segment, lo, hi int) {
 			msg := g.request(rng, local)
 			c.logCase(i, s.Kind, s.Net, msg)
 			var reply []byte
-			site, m, pan := guard(func() { reply = p.VerifHandleTalkRequest(c.env.peer, c.env.paddr, msg) })
+			sender := c.env.senders[local%len(c.env.senders)]
+			site, m, pan := guard(func() { reply = p.VerifHandleTalkRequest(sender, c.env.paddr, msg) })
 			if pan {
-				c.violation("panic:"+site+":"+msgClass(m), fmt.Sprintf("TALKREQ handler (%s) panicked: %s at %s", s.Net, m, site), i, s.Kind, s.Net, msg)
+				c.violation("panic:"+site+":"+msgClass(m), fmt.Sprintf("TALKREQ handler (%s) panicked: %s at %s (sender record: %s)", s.Net, m, site, sender.String()), i, s.Kind, s.Net, msg)
 			} else if bad := checkReply(msg, reply); bad != "" {
 				c.violation("malformed-reply:"+strings.SplitN(bad, ":", 2)[0], fmt.Sprintf("reply to TALKREQ is not well-formed: %s", bad), i, s.Kind, s.Net, msg)
 			}
@@ -569,6 +570,45 @@ func (c *child) runSegment(s segment, lo, hi int) {
 			return body
 		})
 		time.Sleep(300 * time.Millisecond)
+		c.liveness(s)
+	case s.Kind == "findcontent-stored":
+		// FINDCONTENT for items the node really holds, around and above the one-packet limit, from senders with
+		// ordinary and unusual records, by direct call and (every fourth case) over the wire from a live peer
+		// whose record has no endpoint. Large items make the handler announce a uTP transfer.
+		for i := lo; i < hi; i++ {
+			local := i - s.start
+			if len(ne.large) == 0 {
+				c.done(s.Kind, s.Net, []byte{byte(i)})
+				continue
+			}
+			key := ne.large[local%len(ne.large)]
+			msg := append([]byte{portalwire.FINDCONTENT}, append(binary.LittleEndian.AppendUint32(nil, 4), key...)...)
+			c.logCase(i, s.Kind, s.Net, msg)
+			if local%4 == 3 {
+				reply, err := c.env.noEP.Talk(ne.node.Self(), string(ne.proto), msg)
+				if err == nil {
+					if bad := checkReply(msg, reply); bad != "" {
+						c.violation("malformed-reply:"+strings.SplitN(bad, ":", 2)[0], "wire reply is not well-formed: "+bad, i, s.Kind, s.Net, msg)
+					}
+					c.count("findcontent_stored_wire_replies", 1)
+				} else {
+					c.count("wire_no_response", 1)
+				}
+			} else {
+				sender := c.env.senders[(local/4)%len(c.env.senders)]
+				var reply []byte
+				site, m, pan := guard(func() { reply = p.VerifHandleTalkRequest(sender, c.env.paddr, msg) })
+				if pan {
+					c.violation("panic:"+site+":"+msgClass(m), fmt.Sprintf("FINDCONTENT for a stored item (%s) panicked: %s at %s (sender record: %s)", s.Net, m, site, sender.String()), i, s.Kind, s.Net, msg)
+				} else if bad := checkReply(msg, reply); bad != "" {
+					c.violation("malformed-reply:"+strings.SplitN(bad, ":", 2)[0], "reply is not well-formed: "+bad, i, s.Kind, s.Net, msg)
+				}
+				if len(reply) > 2 && reply[0] == portalwire.CONTENT {
+					c.count(fmt.Sprintf("findcontent_stored_selector_%d", reply[1]), 1)
+				}
+			}
+			c.done(s.Kind, s.Net, msg)
+		}
 		c.liveness(s)
 	case s.Kind == "slow-content":
 		// CONTENT answers that announce a connection id nobody serves: the node dials and must give up (15 s)
